@@ -829,10 +829,14 @@ class ExcelInPython:
             return ''
         if isinstance(value, bool):
             return 'TRUE' if value else 'FALSE'
+        if isinstance(value, int) and 10 ** 15 <= abs(value) < 10 ** 308:
+            # a whole number of 16 digits or more is a double like any other number
+            value = float(value)
         if isinstance(value, float) and value == value and value not in (float('inf'), float('-inf')):
-            # 15 significant digits, no trailing ".0": 3/3 is 1, 0.1+0.2 is 0.3
+            # 15 significant digits, no trailing ".0": 3/3 is 1, 0.1+0.2 is 0.3; from 1e15 on the exponent form, which Excel
+            # writes with a capital E: 2.5E+15
             text = '%.15g' % value
-            return text
+            return text.replace('e+', 'E+')
 
         return str(value)
 
